@@ -9,7 +9,7 @@
 -/
 import ParsleyVerif.Proofs.ReaderWs
 import ParsleyVerif.Proofs.Utf8
-import ParsleyVerif.Proofs.FactsTie
+import ParsleyVerif.Proofs.FactsTieText
 namespace PV.Text
 
 /-- ReadRune, ASCII rune -/
